@@ -12,7 +12,7 @@ package announce
 
 // Data-structure invariant of a Receiver built by NewReceiver: the done
 // channel exists and is closed only once the receiver is marked closed.
-//@ spec func recvOK(r val) bool = r != nil && r.done != nil && r.announceCache != nil && (closed(r.done) ==> r.closed) && r.outChan != nil && !closed(r.outChan)
+//@ spec func recvOK(r val) bool = r != nil && r.done != nil && lruOK(r.announceCache) && (closed(r.done) ==> r.closed) && r.outChan != nil && !closed(r.outChan)
 
 // Close: idempotent; every return leaves the mutex as it found it (implicit
 // balance obligation); close(done) at most once.
@@ -32,18 +32,37 @@ package announce
 //@   shutdown done
 
 //@ func (*Receiver).UncacheCid
-//@   property C16
+//@   property C16 C09
 //@   requires recvOK(r) && !held(r.announceMutex)
+//@   modifies state(r.announceCache)
+//@   ensures recvOK(r)
+//@   ensures-local count("call:remove") == 1
 
 //@ func (*Receiver).Direct
-//@   property C16
+//@   property C16 C09
 //@   requires recvOK(r) && !held(r.announceMutex) && ctx != nil
+//@   at call handleAnnounce#1: assert arg2.Cid == nextCid && arg2.PeerID == peerInfo.ID && arg2.Addrs == peerInfo.Addrs && arg3 == r.resend
+//@   ensures recvOK(r)
 
+// Delivery: the announcement is handed to the consumer only if the check
+// passed, at most once, with the announced CID and publisher unchanged (and the
+// addresses unchanged unless address filtering is on); it is republished iff
+// the check passed and resending was asked for.
 //@ func (*Receiver).handleAnnounce
 //@   property C16 C09
 //@   requires recvOK(r) && !held(r.announceMutex) && ctx != nil
+//@   modifies state(r.announceCache)
+//@   ensures recvOK(r)
 //@   shutdown done
+//@   ghost ok := false
+//@   at call announceCheck#1: after ghost ok := result == nil
+//@   at call announceCheck#1: assert arg1.Cid == amsg.Cid && arg1.PeerID == amsg.PeerID
+//@   at call republish#1: assert arg2.Cid == old(amsg.Cid) && arg2.PeerID == old(amsg.PeerID)
 //@   ensures-local count("send:outChan") <= 1
+//@   ensures-local !ok ==> count("send:outChan") == 0 && count("call:republish") == 0 && count("call:FilterPublic") == 0
+//@   ensures-local count("call:republish") == 1 <==> (ok && resend)
+//@   ensures-local count("send:outChan") == 1 ==> evarg("send:outChan", 1) == str(amsg.Cid.str) && evarg("send:outChan", 2) == str(amsg.PeerID)
+//@   ensures-local count("send:outChan") == 1 && !r.filterIPs ==> evarg("send:outChan", 5) == len(amsg.Addrs)
 
 // After close the duplicate filter is not touched; a rejected source never
 // reaches the mutex or the filter.
@@ -51,6 +70,7 @@ package announce
 //@   property C16 C09
 //@   requires recvOK(r) && !held(r.announceMutex)
 //@   modifies state(r.announceCache)
+//@   ensures recvOK(r)
 //@   ghost allowed := true
 //@   at call allowPeer#1: after ghost allowed := result
 //@   ensures-local !allowed ==> result != nil && count("call:update") == 0 && count("lock:announceMutex") == 0
@@ -63,9 +83,73 @@ package announce
 //@   trusted "republication through the p2p sender: only pubsub-internal state changes"
 //@   pure
 
-//@ func (*stringLRU).remove
-//@   nobody
-//@   requires l != nil
+// ---------------------------------------------------------------------------
+// C09: the duplicate filter is an LRU set of at most max strings.
+//
+// Representation invariant: the map and the list are in bijection (cache[k] is
+// a list element whose value is k, and every list element is cache[its value]),
+// sizes agree, and the capacity is respected. The recency order is the rank of
+// the list elements (container/list contracts in /verif/extern/list.spec).
+//@ spec func lruA(l val) bool = l != nil && l.cache != nil && l.ll != nil && l.max >= 1 && g_size(l.ll) <= l.max && g_size(l.ll) == len(l.cache)
+//@ spec func lruB(l val) bool = all(k, has(l.cache, k) ==> l.cache[k] != nil && g_in(l.cache[k]) == l.ll && g_val(l.cache[k]) == k)
+//@ spec func lruC(l val) bool = all(e, e != 0 && g_in(e) == l.ll ==> has(l.cache, g_val(e)) && l.cache[g_val(e)] == e && g_rank(e) <= g_top(l.ll) && typeis(as(e, "*list.Element").Value, "string") && payload(as(e, "*list.Element").Value) == g_val(e))
+//@ spec func lruOK(l val) bool = lruA(l) && lruB(l) && lruC(l)
+
+//@ func newStringLRU
+//@   property C09
+//@   requires maxEntries >= 1
+//@   ensures result != nil && isfresh(result) && result.max == maxEntries && len(result.cache) == 0
+//@   ensures lruOK(result)
+//@   ensures result.cache != nil && result.ll != nil && g_size(result.ll) == 0
+
+// The duplicate filter remembers 64 CIDs.
+//@ func NewReceiver
+//@   property C09
+//@   at call newStringLRU#1: assert arg0 == 64
+
+// Pubsub loop: a republished message (original-peer field set) coming from this
+// host itself is ignored, otherwise it is attributed to the original publisher;
+// a first-hand message is attributed to its sender; the CID is the message's.
+//@ func (*Receiver).watch
+//@   property C09
+//@   requires recvOK(r) && !held(r.announceMutex) && ctx != nil && r.topicSub != nil && r.topic != nil && r.watchDone != nil && !closed(r.watchDone)
+//@   ghost src := ""
+//@   ghost orig := ""
+//@   at call IDFromBytes#1: after ghost src := str(result0)
+//@   at call Decode#1: after ghost orig := str(result0)
+//@   at call handleAnnounce#1: assert arg2.Cid == m.Cid && arg3 == false
+//@   at call handleAnnounce#1: assert ite(str(m.OrigPeer) != str(""), str(arg2.PeerID) == orig && src != str(r.hostID), str(arg2.PeerID) == src)
+//@   loop 1: invariant recvOK(r) && !held(r.announceMutex) && r.topicSub != nil && r.topic != nil && r.watchDone != nil && !closed(r.watchDone)
+
+//@ func (*stringLRU).len
+//@   property C09
+//@   pure
+//@   requires l != nil && l.ll != nil
+//@   ensures result == g_size(l.ll)
+
+// update(s): reports whether s was present; afterwards s is present and the
+// most recent; on a hit nothing else changes; on a miss at capacity exactly the
+// least recent key is evicted; the order of the other keys never changes.
 //@ func (*stringLRU).update
-//@   nobody
-//@   requires l != nil
+//@   property C09
+//@   requires lruOK(l)
+//@   modifies state(l)
+//@   ensures lruA(l)
+//@   ensures lruB(l)
+//@   ensures lruC(l)
+//@   ensures result <==> old(has(l.cache, s))
+//@   ensures has(l.cache, s) && g_rank(l.cache[s]) == g_top(l.ll)
+//@   ensures all(e, e != 0 && e != l.cache[s] && g_in(e) == l.ll ==> g_rank(e) == old(g_rank(e)) && g_rank(e) < g_top(l.ll))
+//@   ensures old(has(l.cache, s)) ==> all(k, has(l.cache, k) <==> old(has(l.cache, k)))
+//@   ensures !old(has(l.cache, s)) && old(g_size(l.ll)) < l.max ==> all(k, has(l.cache, k) <==> (k == str(s) || old(has(l.cache, k))))
+//@   ensures !old(has(l.cache, s)) && old(g_size(l.ll)) == l.max ==> some(v, old(has(l.cache, v)) && v != str(s) && all(k, old(has(l.cache, k)) ==> old(g_rank(l.cache[v])) <= old(g_rank(l.cache[k]))) && all(k, has(l.cache, k) <==> (k == str(s) || (old(has(l.cache, k)) && k != v))))
+
+// remove(s): reports whether s was present; afterwards it is not; nothing else changes.
+//@ func (*stringLRU).remove
+//@   property C09
+//@   requires lruOK(l)
+//@   modifies state(l)
+//@   ensures lruOK(l)
+//@   ensures result <==> old(has(l.cache, s))
+//@   ensures all(k, has(l.cache, k) <==> (old(has(l.cache, k)) && k != str(s)))
+//@   ensures all(e, e != 0 && g_in(e) == l.ll ==> g_rank(e) == old(g_rank(e)))
